@@ -581,6 +581,55 @@ pub proof fn L_edge_injective(a: Edge, b: Edge)
     axiom_str_bytes_injective(a.src_entity@, b.src_entity@);
     axiom_str_bytes_injective(a.label@, b.label@);
 }
+// ================================================================= the verification threads: what a reply may carry
+/// "every row in it passed verify()", per payload type of a reply
+pub trait VerifiedPayload { spec fn all_verified(&self) -> bool; }
+impl VerifiedPayload for Vec<Node> { open spec fn all_verified(&self) -> bool { forall|i: int| 0 <= i < self@.len() ==> node_verified(#[trigger] self@[i]) } }
+impl VerifiedPayload for Vec<Edge> { open spec fn all_verified(&self) -> bool { edges_verified(self@) } }
+impl VerifiedPayload for Vec<EdgeDeletionEntry> { open spec fn all_verified(&self) -> bool { forall|i: int| 0 <= i < self@.len() ==> edge_del_verified(#[trigger] self@[i]) } }
+impl VerifiedPayload for Vec<NodeDeletionEntry> { open spec fn all_verified(&self) -> bool { forall|i: int| 0 <= i < self@.len() ==> node_del_verified(#[trigger] self@[i]) } }
+impl VerifiedPayload for RoomNode { open spec fn all_verified(&self) -> bool { room_verified(*self) } }
+pub struct SendErr { x: u8 }
+pub mod oneshot {
+    use vstd::prelude::*;
+    pub struct Sender<T> { x: Option<T> }
+    impl<T: super::VerifiedPayload> Sender<super::Result<T>> {
+        #[verifier::external_body]
+        pub fn send(self, t: super::Result<T>) -> (r: std::result::Result<(), super::SendErr>)
+            // [verification_reply_carries_only_verified_rows] whatever a verification thread answers with `Ok` has passed the matching *_check: every row in it was verified
+            requires t is Ok ==> t->Ok_0.all_verified(),
+        { unimplemented!() }
+    }
+    impl Sender<bool> {
+        #[verifier::external_body]
+        pub fn send(self, t: bool) -> (r: std::result::Result<(), super::SendErr>) { unimplemented!() }
+    }
+}
+//@ extract src/signature_verification_service.rs :: enum VerificationMessage
+//@ end
+pub struct RecvErr { x: u8 }
+pub struct FlumeReceiver<T> { x: Option<T> }
+/// machine arithmetic only: the variable-length fields of a message that sits in memory sum within usize (the preconditions of
+/// edges_check / room_check)
+pub open spec fn msg_fits_in_memory(m: VerificationMessage) -> bool {
+    match m {
+        VerificationMessage::Edges(edges, _) => forall|i: int| 0 <= i < edges@.len() ==> edge_len(#[trigger] edges@[i]) <= usize::MAX,
+        VerificationMessage::RoomNode(node, _) => room_len_ok(*node),
+        _ => true,
+    }
+}
+impl FlumeReceiver<VerificationMessage> {
+    #[verifier::external_body]
+    pub fn recv(&self) -> (r: std::result::Result<VerificationMessage, RecvErr>) ensures r is Ok ==> msg_fits_in_memory(r->Ok_0) { unimplemented!() }
+}
+//@ extract src/signature_verification_service.rs :: impl SignatureVerificationService / fn start as SignatureVerificationService::lifted_verification_thread
+//@ lift "thread::spawn(move || {" :: fn lifted_verification_thread(local_receiver: FlumeReceiver<VerificationMessage>)
+//@ attr #[verifier::exec_allows_no_decreases_clause]
+//@ insert-each before-stmt "let _ = reply.send(true);"
+                                        // [hash_check_answers_true_only_for_a_valid_signature] the stand-alone signature check answers true only if the signature verifies over the given digest under the given key
+                                        assert(sig_ok(verifying_key@, hash@, signature@));
+//@ end
+
 //@ obligation L_edge_digest_binds_the_field_boundary props C06 : (known finding F7, expected to fail) without the side condition of L_edge_injective: two references with the same digest input have the same source entity and the same label - false, the boundary between the two names is not delimited, so one signature is valid for ("1.1","23") and for ("1.12","3")
 pub uninterp spec fn nondet_f7() -> bool;
 pub proof fn L_edge_digest_binds_the_field_boundary(a: Edge, b: Edge)
